@@ -163,12 +163,23 @@ def soup(rng, surrogates_ok=False, max_atoms=40, long_prob=0.05):
     return atoms
 
 
-_LONG_FILLERS = ["y", "word ", "<i>q</i>", "&amp;", "\n", "\xe9"]
+_LONG_FILLERS = ["y", "word ", "<i>q</i>", "&amp;", "\n", "\xe9", "x stray ", "a]b>c ", "ab-c ", "q\r\n", " ", "\t\n", "k=v "]
+# a long run is placed in every kind of tokenizer state / insertion mode, so
+# that a chunk boundary of the *shipped* chunk size falls inside each of them
+_LONG_CONTEXTS = [
+    [], [], [], ["<svg>", "<![CDATA["], ["<math>", "<![CDATA["], ["<frameset>"], ["<frameset>", "</frameset>"], ["<table>"], ["<table>", "<tr>"],
+    ["<select>"], ["<title>"], ["<textarea>"], ["<script>"], ["<script>", "<!--"], ["<style>"], ["<plaintext>"], ["<!--"], ["<!"], ["<?"],
+    ["<p title='"], ["<p title=\""], ["<p title="], ["<p "], ["<!DOCTYPE "], ["<!DOCTYPE html PUBLIC '"], ["<pre>"], ["</body>"], ["</html>"],
+    ["<head>"], ["<html>", "<head>", "<noscript>"], ["<svg>", "<desc>"], ["<math>", "<mtext>"], ["<colgroup>"], ["<table>", "<colgroup>"], ["<xmp>"],
+    ["</"], ["<a"], ["<svg>", "<a xlink:href='"], ["<template>"], ["<ruby>", "<rt>"],
+]
 
 
 def _make_long(rng, atoms, surrogates_ok):
     """Put a boundary-sensitive atom near offset 10240 (default chunk) or 1024."""
-    target = rng.choice([10240, 10240, 1024, 20480])
+    target = rng.choice([10240, 10240, 10240, 1024, 20480])
+    if rng.random() < 0.7:
+        atoms = (list(atoms[:rng.randint(0, 3)]) if rng.random() < 0.5 else []) + list(rng.choice(_LONG_CONTEXTS))
     sensitive = rng.choice(["\r\n", "\r", "\r\r\n", "\U0001f600", "<!--x-->", "&amp;", "</script>", "<a b='c'>", "\x01",
                             "<![CDATA[x]]>", "&#x41;", "\x00"] + (["\ud800", "\U0001f600"] if surrogates_ok else []))
     head_len = sum(len(a) for a in atoms)
